@@ -712,13 +712,43 @@ func (g *gen) random(n, maxP, maxF int, ties bool, kind string) {
 	}
 }
 
+// wide: more nodes than forkjoin's default of 8 workers. Every node must be started at once: a
+// success behind 8 hung or slow nodes still wins at its own latency.
+func (g *gen) wide() {
+	ms := int64(time.Millisecond)
+	for _, st := range []string{"Plain", "Submit"} {
+		ans := func(a uint64) uint64 {
+			if st == "Submit" {
+				return 0
+			}
+
+			return a
+		}
+		for _, n := range []int{9, 12} {
+			var hung, slow, failing []NodeSpec
+			for i := 0; i < n-1; i++ {
+				hung = append(hung, NodeSpec{Out: "hang"})
+				slow = append(slow, NodeSpec{Out: "err", Class: "Other", Rep: 3, Delay: int64(time.Hour) + int64(i)*ms})
+				failing = append(failing, NodeSpec{Out: "err", Class: "Timeout", Delay: int64(i+1) * ms})
+			}
+			ok := NodeSpec{Out: "ok", Delay: 5 * ms, Ans: ans(uint64(100 + n - 1))}
+			g.add(CaseSpec{Kind: "wide", Style: st, Prim: append(append([]NodeSpec{}, hung...), ok)})
+			g.add(CaseSpec{Kind: "wide", Style: st, Prim: append(append([]NodeSpec{}, slow...), ok)})
+			fok := ok
+			fok.Ans = ans(uint64(200 + n - 1))
+			g.add(CaseSpec{Kind: "wide", Style: st, Prim: failing, Fb: append(append([]NodeSpec{}, hung...), fok)})
+		}
+	}
+}
+
 // classification: every constructed error as the failure of a single primary with one healthy
 // fallback; "consulted" is read off the fallback's status.
 type classRow struct {
-	Kind      string `json:"kind"`
-	Style     string `json:"style"`
-	Consulted bool   `json:"consulted"`
-	Res       string `json:"res"`
+	Kind      string   `json:"kind"`
+	Style     string   `json:"style"`
+	Consulted bool     `json:"consulted"`
+	Res       string   `json:"res"`
+	Spec      CaseSpec `json:"spec"`
 }
 
 func classification(t *testing.T) []classRow {
@@ -733,7 +763,7 @@ func classification(t *testing.T) []classRow {
 					spec.Fb[0].Ans = 0
 				}
 				c := runCase(t, spec)
-				rows = append(rows, classRow{Kind: d.kind, Style: st, Consulted: c.SF[0] != "NotCalled", Res: c.Res})
+				rows = append(rows, classRow{Kind: d.kind, Style: st, Consulted: c.SF[0] != "NotCalled", Res: c.Res, Spec: spec})
 			}
 		}
 	}
@@ -779,6 +809,8 @@ func TestGen(t *testing.T) {
 		c.Kind = "corpus"
 		g.add(c)
 	}
+
+	g.wide()
 
 	styles := []string{"Plain", "Submit", "Pred"}
 	if hx.Thorough() {
